@@ -77,7 +77,13 @@ def main():
         rcb, outb = sh("go test -vet=off -count=1 -run '^$' %s" % pkgs, cwd=mod)
         res["builds"] = rcb == 0
         # failing tests of the unchanged tree (spanner_prober has one in the baseline)
-        base_fail = set(re.findall(r"^\s*--- FAIL: (\S+)", sh("git stash -q; go test -vet=off -count=1 %s; git stash pop -q" % pkgs, cwd=mod)[1], re.M))
+        # (no git stash here: the stash stack is shared by all worktrees of a repository)
+        pf = os.path.join(os.path.abspath(src), "patch.diff")
+        base_fail = set()
+        if not pkg.startswith("grpcgcp"):
+            sh("git apply -R %s" % pf, cwd=wt)
+            base_fail = set(re.findall(r"^\s*--- FAIL: (\S+)", sh("go test -vet=off -count=1 %s" % pkgs, cwd=mod)[1], re.M))
+            sh("git apply %s" % pf, cwd=wt)
         for attempt in range(3):     # the suite has wall-clock sensitive tests; retry to filter load flakes
             rct, outt = sh("go test -vet=off -count=1 %s" % pkgs, cwd=mod)
             now_fail = set(re.findall(r"^\s*--- FAIL: (\S+)", outt, re.M))
